@@ -50,10 +50,13 @@ SChunks(s, p, data) ==
             ELSE SChunks(s, r[2] + 1 + r[1], data \o SubSeq(s, r[2] + 1, r[2] + r[1]))
 Strict(s) == SChunks(s, 1, <<>>)
 
-\* ---------------- lenient: white space allowed before every '#', after the end marker, around the message
+\* ---------------- lenient: white space allowed around the message (before the first '#', after the end marker); between chunks
+\* only line feeds - a space or tab there means that the size of the chunk before it was smaller than its data
+RECURSIVE SkipLF(_, _)
+SkipLF(s, p) == IF p <= Len(s) /\ s[p] = "N" THEN SkipLF(s, p + 1) ELSE p
 RECURSIVE LChunks(_, _, _)
 LChunks(s, p0, data) ==
-  LET p == SkipWs(s, p0) IN
+  LET p == IF p0 = 1 THEN SkipWs(s, p0) ELSE SkipLF(s, p0) IN
   IF p > Len(s) THEN Bad("no-end")
   ELSE IF s[p] # "H" THEN Bad("no-marker")
   ELSE IF p + 1 > Len(s) THEN Bad("no-end")
